@@ -203,6 +203,12 @@ def specLin (before : Key → Nat → Prop) (isAlive : Nat → Prop) : Lin → K
   | .leave s g as, k, x => before k x ∧ ¬ (k = (s, g) ∧ x ∈ as)
   | .leave1 k' a, k, x => before k x ∧ ¬ (k = k' ∧ x = a)
 
+/-- the abstract membership relation evolved along a schedule: at every step the specification's
+transition for the step's linearised operation (the actors' liveness is read at that instant) -/
+def absRun (m : Key → Nat → Prop) (g : G) : List Tid → (Key → Nat → Prop)
+  | [] => m
+  | t :: ts => absRun (specLin m (fun x => x ∉ g.st.dead) (linOf g t)) (step g t) ts
+
 /-! ### the window predicate, decidable, for the run-time oracle
 
 `windowFailing st phases` lists the clauses of the cross-index invariant — weakened exactly by the
